@@ -6,13 +6,16 @@ import treeutil as tu
 from common import time_limit
 
 ID = "C17"
-GEN_DEPENDS = ["UltraPrec"]
+GEN_DEPENDS = ["UltraPrec", "C17Kernels"]
 RULE = ("dyadic trees (1-14 leaves quick, up to 40 thorough; polytomies, unary nodes, None lengths, zero lengths, fixed families): "
         "exactly ultrametric, randomly non-ultrametric, ultrametric with ONE tip moved by eps*(1 +- 2^-k) (k<=20; eps in "
         "{default 1e-5, 0.01, 2^-10, 2^-3, 1, 0}; also exactly eps), every tip moved by a multiple of eps/4, and child-shuffled copies; "
         "x operation (calc_node_ages x precision x forcing x wrapper, resolve_node_depths/ages, calc_node_root_distances, "
         "set_edge_lengths_from_node_ages x min length x error flag, num_lineages_at x distance, length, min/max leaf distance, "
-        "N_bar, sackin x 4 normalisations, colless x 4, B1, treeness, gamma). thorough adds every shape <= 6 leaves x every tip perturbed "
+        "N_bar, sackin x 4 normalisations, colless x 4, B1, treeness, gamma; list forms: the list calc_node_ages returns IN ORDER, "
+        "node_ages/internal_node_ages sorted lists, coalescence_intervals, calc_node_root_distances returned list in order x leaf-only flag, "
+        "max_distance_from_root, treemeasure.node_ages/node_depths/coalescence_ages/divergence_times, Node.distance_from_root/tip on every node, "
+        "set_edge_lengths_from_node_ages with both arguments defaulted). thorough adds every shape <= 6 leaves x every tip perturbed "
         "x both signs x k sweep, and every statistic on every shape <= 7 leaves. Half of the trees live in a taxon namespace that does "
         "not coincide with their tip set (holes in the taxon bits = members on no tip, tips without taxon), and the statistics are also "
         "taken on trees after the library's prune_taxa (pruned members stay in the namespace); definitions always computed on the tree's own tips. "
@@ -21,9 +24,17 @@ RULE = ("dyadic trees (1-14 leaves quick, up to 40 thorough; polytomies, unary n
         "into tips or move the tips (clear_child_nodes, remove_child, truncate_from_root, scale_edges); the call is judged on the tree as it then is. non-trivial = non-ultrametric, or polytomous/unary, "
         "or a perturbation/forcing/normalisation option is in play")
 MODELLED_NOT_VERIFIED = [
-    "C17: Model/C17.lean is hand-written from Tree.calc_node_ages / set_edge_lengths_from_node_ages / resolve_node_depths / "
-    "resolve_node_ages / calc_node_root_distances / num_lineages_at / length and treemeasure.{N_bar,sackin_index,colless_tree_imbalance,"
-    "B1,treeness,pybus_harvey_gamma}; tied to the code by per-case comparison of every node's age / depth / length and every statistic",
+    "C17: Model/C17.lean is hand-written from Tree.calc_node_ages / node_ages / internal_node_ages / coalescence_intervals / "
+    "set_edge_lengths_from_node_ages / resolve_node_depths / resolve_node_ages / calc_node_root_distances / max_distance_from_root / "
+    "num_lineages_at / length, Node.distance_from_root / distance_from_tip and treemeasure.{N_bar,sackin_index,colless_tree_imbalance,"
+    "B1,treeness,pybus_harvey_gamma,node_ages,node_depths,coalescence_ages,divergence_times}; tied to the code (B) by per-case comparison of "
+    "every node's age / depth / length, every returned list (in the code's order) and every statistic, and (A) by Gen/C17Kernels.lean: the "
+    "arithmetic / comparison kernels of those routines (loop steps, normalisation formulas and their selection table, defaults, "
+    "EULERS_CONSTANT, the lineage test, clamp and rejection tests) are regenerated from the current source on every run and proved equal "
+    "to the model's by the bridge_* theorems; the loops themselves (iteration order, which nodes are visited) stay hand-modelled",
+    "C17: Node.distance_from_root includes the seed node's own edge length (the walk up the parent chain does not stop below the seed); "
+    "modelled as the code does it (distance_from_root_spec); judged by the oracle only on trees whose seed has no / zero length. "
+    "Node.distance_from_tip caches `_distance_from_tip` on the children and never invalidates it: only fresh Tree objects are generated",
     "C17: floating point is not modelled: comparison is exact on dyadic inputs (all sums/differences exact in binary64) and within 1e-9 "
     "where the code divides (B1, N_bar, normalisations, treeness, gamma) or the input is not dyadic (default precision 1e-5 sweep; the "
     "2^-k margin keeps exact and float verdicts equal)",
@@ -54,7 +65,13 @@ EXPLANATION = ("Theorems (Props/C17.lean) about the definitions drv_c17 runs, nu
                "harmonic/colless/b1/treeness _eq_def, gamma_loop_eq_sums, gamma_succeeds (a value is returned on every binary exactly "
                "ultrametric positive-length tree with >= 3 leaves, n = number of leaves, T > 0), gamma_eq_def (end to end incl. the lineage "
                "reading of the intervals, conditional on success = gamma_succeeds; gamma_eq_def_partial kept), stats_perm_invariant (child order for every statistic incl. gamma via "
-               "gamma_perm_invariant; ..._partial kept). The literal clause 'paths differing by more than the precision are rejected' is "
+               "gamma_perm_invariant; ..._partial kept). List forms: node_ages_sorted_spec (node_ages/internal_node_ages = sorted permutation of what "
+               "calc_node_ages returns; same refusals), coal_intervals_spec (running sums of the intervals give the sorted ages back; differences "
+               ">= 0), root_distance_list_spec (returned list = root path lengths in pre-order, leaves only or all; max_distance_from_root = "
+               "the max of minmax), distance_from_tip_spec (largest tip distance), distance_from_root_spec (root path length + the seed's own "
+               "edge length). Tie A: bridge_b1, bridge_colless_loop, bridge_colless_norms, bridge_norm_tables, bridge_euler, bridge_sackin, "
+               "bridge_treeness, bridge_gamma_loop, bridge_gamma_ret, bridge_setlen, bridge_ultra, bridge_lineages_depths: every kernel of "
+               "Gen/C17Kernels.lean (regenerated from treemeasure.py and _tree.py on each run) equals the corresponding step of the model. The literal clause 'paths differing by more than the precision are rejected' is "
                "false of the code: evaluated by the oracle, known finding ultrametricity-drift-accumulates.")
 
 EPS_ABS = Fraction(1, 10 ** 12)
@@ -288,7 +305,9 @@ def op_ages(ctx, D, case):
             else:
                 ret = tree.internal_node_ages(is_force_max_age=fmax, is_force_min_age=fmin, **kw)
         ages = [info.nodes[i].age for i in range(info.n)]
-        got = "ok " + " ".join(fr(a) for a in ages) + " | " + " ".join(fr(a) for a in sorted(ret))
+        # calc_node_ages: the returned list in the order the code builds it (post-order); the wrappers: ages only here, their
+        # sorted list is compared through the model's `nodeages` operation below
+        got = "ok " + " ".join(fr(a) for a in ages) + ((" | " + " ".join(fr(a) for a in ret)) if via == "calc" else "")
     except Exception as e:   # noqa
         got = exc_name(e, D)
         ages = None
@@ -372,7 +391,11 @@ def op_ages(ctx, D, case):
         if via != "calc" and list(ret) != sorted(ret):
             ctx.fail("returned_ages", "%s is not sorted" % via, case)
     line = "ages %s %d %d %d %s" % (ptok, fmax, fmin, io, " ".join(toks))
-    return [(line, got, exact, len_tr)]
+    if via == "calc":
+        return [(line, got, exact, len_tr)]
+    got2 = ("ok " + " ".join(fr(a) for a in ret)) if ages is not None else got
+    return [(line, got, exact, (len_tr or "plain") + "+agesonly"),
+            ("nodeages %s %d %d %d %s" % (ptok, fmax, fmin, io, " ".join(toks)), got2, exact, len_tr)]
 
 
 def op_setlen(ctx, D, case):
@@ -380,9 +403,14 @@ def op_setlen(ctx, D, case):
     toks = case["tree"]
     tree, ids = mk(D, toks)
     info = Info(tree, ids)
-    ml = case["minlen"]          # "N" or fraction string
+    ml = case["minlen"]          # "N", a fraction string, or "D": both arguments left to their defaults
     errneg = case["errneg"]
-    kw = {"minimum_edge_length": None if ml == "N" else float(F(ml)), "error_on_negative_edge_lengths": errneg}
+    if ml == "D":
+        # the defaults of the current source are regenerated (Gen/C17Kernels: setlenDefaultMin/Err) and proved to be the
+        # 0 / False the model is sent (bridge_setlen)
+        kw, ml, errneg = {}, "0", False
+    else:
+        kw = {"minimum_edge_length": None if ml == "N" else float(F(ml)), "error_on_negative_edge_lengths": errneg}
     orig = [nd.edge.length for nd in info.nodes]
     ages = None
     if case["ages"] is None:
@@ -553,6 +581,126 @@ def op_lineages(ctx, D, case):
     return [("lineages %s %s" % (fr(d), " ".join(toks)), got, True, ltr)]
 
 
+def op_lists(ctx, D, case):
+    """list forms and Node methods: coalescence_intervals, calc_node_root_distances (returned list, in order),
+    max_distance_from_root, treemeasure.node_depths / node_ages / coalescence_ages / divergence_times,
+    Node.distance_from_root / distance_from_tip (fresh Tree objects)"""
+    from dendropy.calculate import treemeasure as tm
+    toks = case["tree"]
+    T_ = " ".join(toks)
+    out = []
+
+    def fresh():
+        tree, ids = mk(D, toks)
+        return tree, Info(tree, ids)
+
+    tree, info = fresh()
+    ltr = "lenient" if info.nonroot_none else None
+    pre = []
+    stack = [info.root]
+    while stack:
+        i = stack.pop()
+        pre.append(i)
+        stack.extend(reversed(info.kids[i]))
+    internal = [i for i in range(info.n) if info.kids[i]]
+    wantd = [info.rootd[i] for i in range(info.n)]
+    H = max(wantd)
+
+    def attempt(fn):
+        try:
+            with time_limit(20):
+                return fn(), None
+        except Exception as e:   # noqa
+            return None, e
+
+    def judge_list(name, line, value, err, want, exact_order=True):
+        """value: list of numbers (or None with err); want: list of Fractions, or None = no expectation (outside the statement)"""
+        if err is not None:
+            got = lenient(exc_name(err, D), info.nonroot_none)
+            if got.startswith("Internal"):
+                ctx.fail("internal_error", "%s raised %s" % (name, got), case)
+            elif want is not None:
+                ctx.fail("lists_error", "%s raised %s; expected %s" % (name, got, [str(x) for x in want][:8]), case)
+        else:
+            got = "ok " + " ".join(fr(x) for x in value)
+            if want is not None and [F(x) for x in value] != want:
+                ctx.fail("lists_value", "%s = %s; expected %s" % (name, list(value)[:8], [str(x) for x in want][:8]), case)
+        if line is not None:
+            out.append((line, got, True, ltr))
+
+    defined = not info.nonroot_none
+    # calc_node_root_distances: the returned list, in pre-order
+    for lo in (True, False):
+        tree, _ = fresh()
+        v, e = attempt(lambda: tree.calc_node_root_distances(return_leaf_distances_only=lo))
+        judge_list("calc_node_root_distances(return_leaf_distances_only=%s)" % lo, "rdlist %d %s" % (lo, T_), v, e,
+                   [wantd[i] for i in pre if not lo or not info.kids[i]] if defined else None)
+    tree, _ = fresh()
+    v, e = attempt(lambda: [tree.max_distance_from_root()])
+    judge_list("max_distance_from_root", "maxdist " + T_, v, e, [max(wantd[i] for i in info.leaves)] if defined else None)
+    # treemeasure list functions
+    for io in (False, True):
+        tree, _ = fresh()
+        v, e = attempt(lambda: tm.node_depths(tree, is_internal_only=io))
+        judge_list("treemeasure.node_depths(is_internal_only=%s)" % io, "tmdepths %d %s" % (io, T_), v, e,
+                   sorted(wantd[i] for i in range(info.n) if not io or info.kids[i]) if defined else None)
+        tree, _ = fresh()
+        v, e = attempt(lambda: tm.node_ages(tree, is_internal_only=io))
+        judge_list("treemeasure.node_ages(is_internal_only=%s)" % io, "tmages %d %s" % (io, T_), v, e,
+                   sorted(H - wantd[i] for i in range(info.n) if not io or info.kids[i]) if defined else None)
+    tree, _ = fresh()
+    v, e = attempt(lambda: tm.coalescence_ages(tree))
+    judge_list("treemeasure.coalescence_ages", "tmages 1 " + T_, v, e, sorted(H - wantd[i] for i in internal) if defined else None)
+    tree, _ = fresh()
+    v, e = attempt(lambda: tm.divergence_times(tree))
+    judge_list("treemeasure.divergence_times", "tmdepths 1 " + T_, v, e, sorted(wantd[i] for i in internal) if defined else None)
+    # coalescence_intervals (all defaults): defined by the statement on exactly ultrametric trees
+    tree, _ = fresh()
+    v, e = attempt(lambda: tree.coalescence_intervals())
+    want = None
+    if info.exact_ultra:
+        ages = sorted(info.tipd[i][0] for i in range(info.n))
+        want = [ages[0]] + [b - a for a, b in zip(ages, ages[1:])]
+    from dendropy.utility import error as _err
+    if e is not None and isinstance(e, _err.UltrametricityError):
+        got = "UltrametricityError"
+        if want is not None:
+            ctx.fail("lists_error", "coalescence_intervals rejected an exactly ultrametric tree", case)
+        out.append(("coal " + T_, got, True, None))
+    else:
+        judge_list("coalescence_intervals", None, v, e, want)
+        got = ("ok " + " ".join(fr(x) for x in v)) if e is None else exc_name(e, D)
+        out.append(("coal " + T_, got, case.get("exact", True), None))
+    # Node.distance_from_root / distance_from_tip on every node of a fresh tree
+    tree, inf2 = fresh()
+    vals = []
+    for i in range(inf2.n):
+        try:
+            vals.append(fr(inf2.nodes[i].distance_from_root()))
+        except Exception as ex:  # noqa
+            vals.append(lenient(exc_name(ex, D), True))
+    if defined and (info.has_none[info.root] or info.len[info.root] == 0):
+        for i in range(info.n):
+            if vals[i] != fr(wantd[i]):
+                ctx.fail("node_distance", "node %d: distance_from_root() = %s, the path from the root has length %s" % (i, vals[i], wantd[i]), case)
+                break
+    out.append(("distroot " + T_, "ok " + " ".join(vals), True, "lenient-tokens"))
+    tree, inf3 = fresh()
+    try:
+        tv = [inf3.nodes[i].distance_from_tip() for i in pre]
+        tv = dict(zip(pre, tv))
+        got = "ok " + " ".join(fr(tv[i]) for i in range(info.n))
+        for i in range(info.n):
+            if F(tv[i]) != max(info.tipd[i]):
+                ctx.fail("node_distance", "node %d: distance_from_tip() = %s, its farthest tip is at %s" % (i, tv[i], max(info.tipd[i])), case)
+                break
+    except Exception as ex:  # noqa
+        got = exc_name(ex, D)
+        ctx.fail("node_distance", "distance_from_tip raised %s" % got, case)
+    out.append(("disttip " + T_, got, True, None))
+    return out
+
+
 def yule_colless(c, n):
     """the code's arrangement (used to bring the model's exact components to the implementation's scale)"""
     return (c - n * math.log(n) - n * (0.5772156649015329 - 1.0 - math.log(2))) / n
@@ -715,6 +863,12 @@ def post_model(m, tr):
     if m is None:
         return None
     m = m.strip()
+    if tr.endswith("+agesonly"):
+        tr = tr[:-len("+agesonly")]
+        if m.startswith("ok "):
+            m = m.split(" |")[0].strip()      # the wrappers' list is compared through `nodeages`
+    if tr == "lenient-tokens":
+        return " ".join(lenient(w, True) for w in m.split())
     if not m.startswith("ok "):
         if tr == "lenient":
             return lenient(m, True)
@@ -733,7 +887,7 @@ def post_model(m, tr):
     raise ValueError(tr)
 
 
-OPS = {"ages": op_ages, "setlen": op_setlen, "depths": op_depths, "lineages": op_lineages, "stats": op_stats}
+OPS = {"ages": op_ages, "setlen": op_setlen, "depths": op_depths, "lineages": op_lineages, "stats": op_stats, "lists": op_lists}
 STAT_OPS = {"stats"}
 
 
@@ -1061,6 +1215,14 @@ def tree_battery(ctx, D, rng, toks, kind, pending):
             "minlen": rng.choice(["0", "N", "1/2", "-1", "-4"]), "errneg": rng.random() < 0.5}
     ctx.case(["setlen", toks, case["ages"], case["minlen"], case["errneg"]], True, kind="setlen")
     do_case(ctx, D, case, pending)
+    if rng.random() < 0.3:
+        case = {"op": "setlen", "tree": toks, "ages": [tu.frac(F(rng.randint(0, 12), 2)) for _ in range(n)], "minlen": "D", "errneg": False}
+        ctx.case(["setlen-defaults", toks, case["ages"]], True, kind="setlen-defaults")
+        do_case(ctx, D, case, pending)
+    # list forms (returned lists in order, sorted lists, coalescence intervals) and the Node methods
+    case = {"op": "lists", "tree": toks}
+    ctx.case(["lists", toks], nontriv, sample=case, kind="lists-" + kind)
+    do_case(ctx, D, case, pending)
     # depths / root distances / resolved ages
     case = {"op": "depths", "tree": toks, "leaf_only": rng.random() < 0.5}
     ctx.case(["depths", toks], nontriv, kind="depths")
@@ -1166,6 +1328,30 @@ def run(ctx):
         ctx.extra["exhaustive_small_scope"] = ("every shape <= 5 leaves x every tip x 6 precisions x k in {exact,1,2,5,10,15,20} x both signs x "
                                                "both directions, every shape of 6 leaves x every tip x 6 precisions x k in {exact, random, 20}: "
                                                "%d age cases; every statistic on every shape <= 7 leaves: %d trees" % (cnt, cnt2))
+
+
+def search(ctx, broken):
+    """a regenerated kernel left the supported subset, a bridge theorem no longer holds, or model and code disagree: look for
+    a concrete failing input on the real code in the affected mechanisms - every operation on every shape <= 5 leaves
+    (ultrametric, randomly non-ultrametric, zero lengths) and a one-tip perturbation sweep around every precision"""
+    D = __import__("dendropy")
+    rng = ctx.rng
+    pending = []
+    for n in range(1, 6):
+        for shape in tu.all_shapes(n):
+            if ctx.failures or ctx.out_of_time():
+                break
+            nn = count_nodes(shape)
+            for kind, lens in (("ultra", preorder_lens_ultra(rng, shape, None)),
+                               ("zero", preorder_lens_ultra(rng, shape, F(1, 2), zero_rate=0.4)),
+                               ("random", [None] + [F(tu.dyadic(rng)) for _ in range(nn - 1)])):
+                toks = tokens_from(shape, lens)
+                tree_battery(ctx, D, rng, toks, kind, pending)
+                if kind == "ultra" and n >= 2:
+                    run_perturbation(ctx, D, rng, toks, pending, [None, 1, 10, 20])
+            if len(pending) > 5000:
+                flush(ctx, pending)
+    flush(ctx, pending)
 
 
 def replay(ctx, rec):
